@@ -312,9 +312,28 @@ def _placement_cases(quick):
                 yield [["+", grp], ["+", ("grp", "1", None, ("var", "g"))], ["+", ("lit", "0")]]
 
 
+def _power_cases():
+    """(sum of k terms) ** n for every k <= 6 and n <= k + 1: all interactions up to order n, none missing, none invented"""
+    names = ["a", "b", "c", "d", "e", "f(x)"]
+    for k in range(2, 7):
+        for variant in range(3):
+            leaves = [("var", v) for v in names[:k]]
+            if variant == 1:
+                leaves[-1] = (":", ("var", names[k - 1]), ("var", "h"))  # one summand is an interaction already
+            elif variant == 2:
+                leaves = leaves[::-1]
+            t = leaves[0]
+            for leaf in leaves[1:]:
+                t = ("+", t, leaf)
+            for n in range(2, k + 2):
+                yield [["+", ("**", t, n)]]
+                if n == 3:
+                    yield [["+", ("var", "h")], ["+", ("**", t, n)]]
+
+
 def _placement_worker(ctx, arg):
     shard, nshards = arg
-    for i, items in enumerate(_placement_cases(ctx.tier == "quick")):
+    for i, items in enumerate(itertools.chain(_placement_cases(ctx.tier == "quick"), _power_cases())):
         if i % nshards == shard:
             judge(ctx, {"items": items, "style": "full"})
 
@@ -391,6 +410,6 @@ def run(ctx):
         ctx.exhaustive["trees<=3 over 5 atoms, trees<=2 over 10 call atoms, trees<=3 over 4 call atoms"] = {"complete": True}
     ctx.parallel(_exh_worker, jobs)
     ctx.parallel(_placement_worker, [(k, ns) for k in range(ns)])
-    ctx.exhaustive["intercept-literal and group-item placements"] = {"complete": True}
+    ctx.exhaustive["intercept-literal and group-item placements; (sum of k <= 6 terms) ** n for n <= k + 1"] = {"complete": True}
     per = 400 if quick else 4000
     ctx.parallel(_random_worker, [(k, per, 6 if k % 2 else 10) for k in range(ns)])
